@@ -598,7 +598,7 @@ def e2e_scenarios(rnd, tier):
                 for t in cfg["tracks"]:
                     if t["codec"] in ("aac", "opus") and "name" not in t and rnd.random() < 0.5:
                         t["name"], t["lang"] = "n%d" % k, rnd.choice(["en", "de", "it"])
-                    if t["codec"] in ("aac", "opus") and rnd.random() < 0.3:
+                    if t["codec"] in ("aac", "opus") and rnd.random() < 0.3 and not any(x.get("def") for x in cfg["tracks"]):
                         t["def"] = True
                 audio_only = all(t["codec"] in ("aac", "opus") for t in cfg["tracks"])
                 if variant == "mpegts":
@@ -606,15 +606,16 @@ def e2e_scenarios(rnd, tier):
                 else:
                     start = rnd.choice([0, -3, 5, 1234.5, 3600])
                 steps = muxgen.gen_steps(rnd, cfg, 2500 if (variant == "mpegts" and audio_only) else 900, start_s=start, irregular=False, gop=rnd.choice([10, 15]), changes=0, vdur=3000)
-                if audio_only:
-                    # several access units per call, so that segment boundaries fall inside a call
-                    for st_ in steps:
-                        if cfg["tracks"][st_["t"]]["codec"] == "aac":
-                            pass
+                if variant == "mpegts" and audio_only:
+                    # audio-only MPEG-TS segments are cut every 100 Write calls at the earliest: one access unit per call at
+                    # 44.1 / 48 kHz keeps a segment near 2.2 s
+                    cfg["tracks"][0]["rate"] = rnd.choice([44100, 48000])
+                    steps = [{"t": 0, "dts": int(start * cfg["tracks"][0]["rate"]) + 1024 * i, "ra": 1, "ps": 0, "size": rnd.randint(6, 60), "n": 1}
+                             for i in range(700)]
                 tmin = min(st_["dts"] / muxgen.rate_of(cfg["tracks"][st_["t"]]) for st_ in steps)
                 total = 5.0 if tier == "quick" else rnd.choice([5.0, 7.0])
                 if variant == "mpegts" and audio_only:
-                    total = 16.0      # audio-only MPEG-TS segments are cut every 100 writes at the earliest (several seconds)
+                    total = 12.0
                 steps = [st_ for st_ in steps if st_["dts"] / muxgen.rate_of(cfg["tracks"][st_["t"]]) - tmin <= total]
                 linear = variant == "ll"
                 scs.append({"cfg": cfg, "steps": steps, "entry": "media" if (k % 4 == 0) else "multi",
@@ -622,40 +623,42 @@ def e2e_scenarios(rnd, tier):
                             "driftPPM": 0 if linear else rnd.choice([0, 8000, -5000, 20000]),
                             "jumpMs": 0 if linear else rnd.choice([0, 7, -4, 40]), "jumpEach": 500,
                             "tailMs": 500, "tag": "e2e-%s-%s-%d" % (variant, "+".join(t["codec"] for t in cfg["tracks"]), k)})
-    # the recorded finding: a Low-Latency stream whose segments are all shorter than 0.5 s (TARGETDURATION 0, CAN-SKIP-UNTIL 0)
+    # sub-second segments in Low-Latency mode (repaired defect: TARGETDURATION 0 -> CAN-SKIP-UNTIL 0 -> delta update skips everything)
     cfg = muxgen.make_cfg(rnd, "ll", tracks=["h264", "aac"], seg_min_ms=200, part_min_ms=50, seg_count=40, disk=False, query="")
     steps = muxgen.gen_steps(rnd, cfg, 600, start_s=0, irregular=False, gop=5, changes=0, vdur=3000)
     tmin = min(st_["dts"] / muxgen.rate_of(cfg["tracks"][st_["t"]]) for st_ in steps)
     steps = [st_ for st_ in steps if st_["dts"] / muxgen.rate_of(cfg["tracks"][st_["t"]]) - tmin <= 3.0]
     scs.append({"cfg": cfg, "steps": steps, "entry": "multi", "attachMs": 0, "driftPPM": 0, "jumpMs": 0, "jumpEach": 500, "tailMs": 300,
-                "tag": "e2e-ll-td0"})
+                "tag": "e2e-ll-subsecond"})
     scs.sort(key=lambda sc: -len(sc["steps"]))
     return scs
 
 
-def lltd0_finding(trace, v):
+def foreign_anchor_finding(trace, v, want_ts):
     run, hit = [], None
     with open(trace) as f:
         for ln in f:
             if '"ev":"reset"' in ln:
                 run = []
             run.append(ln)
-            if '"ev":"end"' in ln and '"tag":"e2e-ll-td0"' in run[0]:
+            if '"ev":"end"' in ln and any('"foreign":1' in x for x in run) and (want_ts == ('"variant":"mpegts"' in run[0])):
                 hit = run
                 break
     if not hit:
         return 0
     os.makedirs(vlib.REPLAYS, exist_ok=True)
-    rp = os.path.join(vlib.REPLAYS, "C09-ll-td0.ndjson")
+    rp = os.path.join(vlib.REPLAYS, "C09-%s-anchor.ndjson" % ("stale" if want_ts else "foreign"))
     with open(rp, "w") as f:
         f.writelines(hit)
     r, _ = vlib.validate_trace("ClientMux", cfg_c09(strict=True), rp)
     if r.kind == "invariant":
-        v.violation("a Client cannot follow a Low-Latency Muxer whose segments are all shorter than 0.5 s: TARGETDURATION is 0, so "
-                    "CAN-SKIP-UNTIL is 0 and the delta update requested with _HLS_skip=YES skips every segment; the playlist then has no "
-                    "EXTINF and the client's decoder cannot classify it (EOF)", rp, signature="ll-td0-delta-skips-everything")
-        return 1
-    return 0
+        if '"variant":"mpegts"' in hit[0]:
+            v.violation("AbsoluteTime of an MPEG-TS unit whose DTS precedes the first leading-track unit of its segment is computed from "
+                        "the previous segment's date-time", rp, signature="ts-early-unit-stale-anchor")
+        else:
+            v.violation("AbsoluteTime of a unit of an audio rendition is computed from the date-time of whichever segment the leading "
+                        "stream processed last, not from that of the unit's own segment", rp, signature="rendition-foreign-anchor")
+    return 1
 
 
 def run_e2e(binary, scs, work, tag):
@@ -746,7 +749,7 @@ def annotate_e2e(run):
                     x["params"] = 1          # codec parameters are claimed for the fMP4 variants only
             d["exp"] = exp
         elif d["ev"] == "data":
-            d.update({"emt": 0, "dd": 0, "dp": 0, "da": 0})
+            d.update({"emt": 0, "dd": 0, "dp": 0, "da": 0, "foreign": 0})
             ct = d["t"]
             if 1 <= ct <= len(emt):
                 d["emt"] = emt[ct - 1]
@@ -782,10 +785,22 @@ def annotate_e2e(run):
                     e = d["abs"] - want
                     tol = 1000 + Fraction(2 * 1000000, rt) + 2
                     d["da"] = 0 if abs(e) <= tol else (clip(round(e)) or 1)
+                    if d["da"] != 0 and t != lead and (variant != "mpegts" or Fraction(wd, rt) < Fraction(anchor[0], rl)):
+                        # fMP4: the client dates rendition units with the anchor of whichever segment the leading stream processed
+                        # last; MPEG-TS: a unit whose DTS precedes the segment's first leading-track unit is dated with the anchor
+                        # of the previous segment (the anchor moves when the first leading-track sample of the segment is read)
+                        for m2, per2 in segs.get(lead_stream, {}).items():
+                            lo2 = per2.get(lead)
+                            if lo2 and (lead, lo2[0]) in w:
+                                a2 = w[(lead, lo2[0])]
+                                want2 = a2[1] + (Fraction(wd, rt) - Fraction(a2[0], rl)) * 1000000
+                                if abs(d["abs"] - want2) <= tol:
+                                    d["foreign"] = 1
+                                    break
         elif d["ev"] == "wait":
             es = d["err"]
             d["errc"] = "terminated" if es == "terminated" else "missing" if "next segment not found" in es else "other"
-            d["lltd0"] = 1 if "td0" in reset["sc"].get("tag", "") else 0
+            d["lltd0"] = 0
             d["expd"] = [1 if t in emt else 0 for t in range(1, nt + 1)]
             d["uncheckedAbs"] = unchecked_abs
     return run
@@ -873,7 +888,7 @@ def crash_violation(v, pid, sc, out, tag):
 def cfg_c09(strict=False):
     name = "Trace_clientmux%s.cfg" % ("_strict" if strict else "")
     with open(os.path.join(vlib.SPEC, name), "w") as f:
-        f.write("SPECIFICATION TraceSpec\nCONSTANTS\n  TolerateLLTD0 = %s\nINVARIANTS C09_Reproduces\nPOSTCONDITION Post\n"
+        f.write("SPECIFICATION TraceSpec\nCONSTANTS\n  TolerateForeignAnchor = %s\nINVARIANTS C09_Reproduces\nPOSTCONDITION Post\n"
                 "CHECK_DEADLOCK FALSE\n" % ("FALSE" if strict else "TRUE"))
     return name
 
@@ -903,7 +918,7 @@ def run_c09(binary, tier, v, work, rnd, t0):
         open(rp, "w").write(out)
         v.violation("the process crashed while a Client was reading a Muxer: " + (re.search(r"(panic: [^\n]*)", out) or [0, "fatal"])[1], rp)
     tc = validate_c09(trace, v, "e2e")
-    td0 = lltd0_finding(trace, v)
+    foreign = foreign_anchor_finding(trace, v, False) + foreign_anchor_finding(trace, v, True)
     ndata = nwr = herr = 0
     ends = {}
     samples = []
@@ -923,7 +938,7 @@ def run_c09(binary, tier, v, work, rnd, t0):
     if herr:
         raise vlib.Inconclusive("%d end-to-end runs failed in the harness" % herr)
     cov = {"states": tc.states, "transitions": tc.lines, "traces_validated_against_impl": tc.traces, "scenarios": len(scs),
-           "units_written": nwr, "units_delivered": ndata, "endings": ends, "ll_td0_finding_reproduced": td0, "exhaustive": False, "samples": samples,
+           "units_written": nwr, "units_delivered": ndata, "endings": ends, "foreign_anchor_observed": foreign,  "exhaustive": False, "samples": samples,
            "variants": sorted(set(sc["cfg"]["variant"] for sc in scs)),
            "track_sets": sorted(set("+".join(t["codec"] for t in sc["cfg"]["tracks"]) for sc in scs))}
     rc = v.finish()
